@@ -18,8 +18,12 @@ type sizePlan struct {
 	Expected    time.Duration // expected duration reported by Select
 	TimeoutSec  int           // timeout reported by Select, in whole seconds
 	RetryOnFail bool          // Failed() on the first attempt asks for a retry on the largest size class
-	BgOnSuccess bool          // Succeeded() on a foreground attempt asks for a background learning run
-	BgChoice    int
+	// RetryExpected is the expected duration Failed() reports for that
+	// retry (it decides the retried operation's place among operations of
+	// equal priority).
+	RetryExpected time.Duration
+	BgOnSuccess   bool // Succeeded() on a foreground attempt asks for a background learning run
+	BgChoice      int
 }
 
 type planKey struct{}
@@ -139,7 +143,7 @@ func (l *scriptedLearner) Failed(timedOut bool) (time.Duration, time.Duration, i
 		s := &scriptedSelector{a: l.a, plan: l.plan}
 		n := s.newLearner("retry", -1)
 		l.rec.NextLeaner = n.rec.ID
-		return l.plan.Expected, time.Duration(l.plan.TimeoutSec)*time.Second + retryMark, n
+		return l.plan.RetryExpected, time.Duration(l.plan.TimeoutSec)*time.Second + retryMark, n
 	}
 	return 0, 0, nil
 }
